@@ -42,6 +42,9 @@ CONFIGS = {
     # name: (cc, cxx, flags)
     "asan": ("gcc", "g++", "-O1 -g -fno-omit-frame-pointer -fsanitize=address,undefined -fno-sanitize-recover=undefined"),
     "plain": ("gcc", "g++", "-O2 -g"),
+    # memory errors only: for call sequences OUTSIDE the documented preconditions (lookups in array context compare
+    # against a level that has no name: memcmp(p, NULL, 0), which UBSan's nonnull check would abort on)
+    "asan-noub": ("gcc", "g++", "-O1 -g -fno-omit-frame-pointer -fsanitize=address"),
 }
 
 
